@@ -259,6 +259,8 @@ func (g *ctrGen) Snapshot() ([]byte, error) { return []byte(fmt.Sprint(atomic.Lo
 func (g *ctrGen) New() id.Id                { return ctrId{fmt.Sprintf("h%d", atomic.AddUint64(&g.n, 1))} }
 
 var sharedGen = &ctrGen{}
+
+type startKey struct{}
 var instCount, engineCount uint64
 
 func executables(defs *schema.Definitions) (n int) {
@@ -318,6 +320,7 @@ func (e Ev) String() string {
 }
 
 type Inst struct {
+	valued  bool // started by StartInst with a context that carries startKey
 	P       *bpmn.Process
 	Ctx     context.Context
 	Cancel  context.CancelFunc
@@ -408,7 +411,10 @@ func StartInst(defs *schema.Definitions, o InstOpt) (*Inst, error) {
 	ch := p.Tracer().SubscribeChannel(make(chan tracing.ITrace, buf))
 	go in.pump(ch)
 	if !o.NoStart {
-		if err := p.StartAll(ctx); err != nil {
+		// the instance is started with a context derived from its own that carries a value: every task request, at
+		// whatever depth of sub-processes, carries it (checked by the pump)
+		in.valued = true
+		if err := p.StartAll(context.WithValue(ctx, startKey{}, true)); err != nil {
 			cancel()
 			return nil, err
 		}
@@ -429,6 +435,9 @@ func (in *Inst) pump(ch chan tracing.ITrace) {
 		switch t := tr.(type) {
 		case bpmn.TaskTrace:
 			n := nodeId(t.GetActivity().Element())
+			if in.valued && (t.Context() == nil || t.Context().Value(startKey{}) == nil) {
+				sharedFinding("task-context", "instance of "+in.describe(), "the request of task "+n+" does not carry the context the instance was started with (a value of that context is missing)")
+			}
 			in.mu.Lock()
 			in.pending[n] = append(in.pending[n], t)
 			in.ntask[n]++
